@@ -86,10 +86,10 @@ def generate(facts):
     lines.append("/-- `urllib3.connection._get_default_user_agent()` -/")
     lines.append("def defaultUserAgent : Str := " + lstr(ua))
     lines.append("/-- default of `HTTPConnection(blocksize=…)` -/")
-    lines.append(f"def defaultBlocksize : Nat := {int(blocksize)}")
+    lines.append(f"def wireDefaultBlocksize : Nat := {int(blocksize)}")
     lines.append("/-- `urllib3.util.url._PATH_CHARS` / `_QUERY_CHARS` as sorted code points -/")
-    lines.append("def pathChars : List Nat := " + llist(str(c) for c in path_chars))
-    lines.append("def queryChars : List Nat := " + llist(str(c) for c in query_chars))
+    lines.append("def wirePathChars : List Nat := " + llist(str(c) for c in path_chars))
+    lines.append("def wireQueryChars : List Nat := " + llist(str(c) for c in query_chars))
     lines.append("/-! regex sources the hand matchers were written for (pins) -/")
     for k in sorted(pins):
         lines.append(f"def {k} : String := {_lean_string(pins[k])}")
